@@ -169,7 +169,12 @@ type Prop[C any] struct {
 func safeRun[C any](p Prop[C], c C) (v *Violation, o Outcome) {
 	defer func() {
 		if r := recover(); r != nil {
-			v = V(p.ID+"/panic", "panic: %v\n%s", r, debug.Stack())
+			st := string(debug.Stack())
+			fp := p.ID + "/panic"
+			if panicInHarness(st) {
+				fp = "harness/panic"
+			}
+			v = V(fp, "panic: %v\n%s", r, st)
 		}
 	}()
 	return p.Run(c)
@@ -287,4 +292,23 @@ func (p *Plain) ReplayCase(c any) bool {
 		p.t.Fatalf("replay: cannot decode case: %v", err)
 	}
 	return true
+}
+
+// panicInHarness reports whether the frame that raised the panic belongs to harness code
+// (overlaid zz_verif_* files or this package) rather than to the code under test.
+func panicInHarness(stack string) bool {
+	lines := strings.Split(stack, "\n")
+	for i, l := range lines {
+		if strings.HasPrefix(l, "panic(") {
+			// frames follow as pairs (function, file:line); skip runtime frames
+			for j := i + 2; j+1 < len(lines); j += 2 {
+				file := strings.TrimSpace(lines[j+1])
+				if strings.Contains(file, "/runtime/") || strings.Contains(file, "/src/") && !strings.Contains(file, "/pkg/mod/") && strings.Contains(file, "/go-1.") {
+					continue
+				}
+				return strings.Contains(file, "zz_verif_") || strings.Contains(file, "/zzverif/")
+			}
+		}
+	}
+	return false
 }
